@@ -243,7 +243,7 @@ def plan(tier, seed):
         u = C02._small_unit(cname, k, "quick" if k == 3 else "thorough", f"vp.props.C05:small{k}")
         u.name = f"enum_{cname}"
         units.append(u)
-    names = ["star4", "lonepair", "dbond", "ring4", "sn2"] + (["twocentre", "star5", "star6"] if tier == "thorough" else [])
+    names = ["star4", "lonepair", "dbond", "ring4", "sn2", "annulene"] + (["twocentre", "star5", "star6"] if tier == "thorough" else [])
     for (n, c, p, pr) in eqfam.template_units(names):
         params = {"t": (C01.TNAMES.index(n), C01.TNAMES.index(n) + 1), "cls": (gl.CLS_NAMES.index(c), gl.CLS_NAMES.index(c) + 1)}
         params.update(p)
@@ -257,7 +257,7 @@ def plan(tier, seed):
         if n == "star6" and c == "SCRG":
             pre += ["chg == 0", "lig in (0, 1, 3)"]      # one octahedral SCRG instance costs about a CPU-minute (720-element groups x label modes)
         units.append(Sel(name=f"{n}_{c}", func="vp.props.C05:template", params=params, pre=pre, shard_by=[], timeout=1500, nontrivial="par == 0",
-                         min_shard=4 if n in ("star5", "star6", "twocentre") else 48))
+                         min_shard=4 if n in ("star5", "star6", "twocentre", "annulene") else 48))
     return units
 
 
